@@ -84,7 +84,7 @@ def _dt(y, mo, d, h=0, mi=0, s=0):
     return f"{y:04d}{mo:02d}{d:02d}T{h:02d}{mi:02d}{s:02d}"
 
 
-TZIDS = ["Europe/Amsterdam", "America/New_York", "Pacific/Kiritimati", "UTC"]
+TZIDS = ["Europe/Amsterdam", "America/New_York", "Pacific/Kiritimati", "Europe/London", "UTC"]  # London: offset zero in winter without being UTC
 
 
 @st.composite
@@ -104,7 +104,7 @@ def date_prop(draw, name, allow_date=True):
         return (name, [], v + "Z")
     if kind == "floating":
         return (name, [], v)
-    return (name, [("TZID", [draw(st.sampled_from(TZIDS[:3]))])], v)
+    return (name, [("TZID", [draw(st.sampled_from(TZIDS[:4]))])], v)
 
 
 DURATIONS = ["PT15M", "PT1H", "P1D", "PT1H30M", "P7D", "P0D", "P2DT3H"]  # canonical spellings only (PT0S is re-spelled P0D by the library)
